@@ -57,6 +57,9 @@ def eval_zone(case):
             except Exception as e:
                 fail('conversion-exception', utc=u, error=repr(e)[:120])
                 continue
+            if loc.tzinfo is None or off is None:
+                fail('conversion-returned-naive', utc=u, utc_time=utc.replace(tzinfo=None), got=loc)
+                continue
             if off != wall - utc.replace(tzinfo=None):
                 fail('utcoffset-is-not-wall-minus-utc', utc=u, utc_time=utc.replace(tzinfo=None), wall=wall, fold=loc.fold,
                      offset=off.total_seconds())
